@@ -234,7 +234,7 @@ theorem scrypt_wrap_tie (P : Prims) {κ : Type} (E : NativeEnv P κ) (pw : Bytes
 theorem scrypt_wrapWithLabels_tie (P : Prims) {κ : Type} (E : NativeEnv P κ) (pw : Bytes) (logN : Nat) (_hN : logN < 63) (fk tape : Bytes) :
     ∃ res, age_ScryptRecipient_WrapWithLabels (tapeRead E.eRand) E.Enc E.K E.Seal ⟨pw, Int.ofNat logN⟩ fk tape = .ok res ∧
       match wrapOne P (.scrypt pw logN) fk tape with
-      | .error () => res.2.2.1 = some E.eRand
+      | .error () => res.1 = [] ∧ res.2.1 = [] ∧ res.2.2.1 = some E.eRand
       | .ok (some (ss, ls), t) => res = (ss.map toGoStanza, ls, none, t)
       | .ok (none, _) => False := by
   have hmk : Go.makeList (0 : UInt8) 16 = .ok (List.replicate 16 0) := rfl
@@ -250,7 +250,7 @@ theorem scrypt_wrapWithLabels_tie (P : Prims) {κ : Type} (E : NativeEnv P κ) (
     rw [hd] at hm
     subst hm
     simp only [tapeRead_none E.eRand hd, ok_bind, hs, if_true]
-    exact ⟨_, rfl, rfl⟩
+    exact ⟨_, rfl, rfl, rfl, rfl⟩
   | some bt =>
     obtain ⟨salt, t⟩ := bt
     rw [hd] at hm
@@ -260,7 +260,7 @@ theorem scrypt_wrapWithLabels_tie (P : Prims) {κ : Type} (E : NativeEnv P κ) (
     cases hd2 : draw 16 t with
     | none =>
       simp only [tapeRead_none E.eRand hd2, ok_bind, hs, if_true]
-      exact ⟨_, rfl, rfl⟩
+      exact ⟨_, rfl, rfl, rfl, rfl⟩
     | some bt2 =>
       obtain ⟨lab, t'⟩ := bt2
       simp only [tapeRead_some E.eRand hd2, ok_bind, hn, Bool.false_eq_true, if_false,
